@@ -206,6 +206,10 @@ class Impl(object):
             return f([B, A, B], indices=[1, 0], **kw)
         if k == 6:
             return f([A, B, B], indices=np.array([0, 2]), **kw)
+        if k == 5:
+            return f([B, A], indices=[1, 0], **kw)   # a list of exactly two trains, selected in reverse order
+        if k == 3 and _tick() % 2:
+            return f([B, A], indices=np.array([1, 0]), **kw)
         return f(A, B, **kw)
 
     def many(self, f, l, ix, **kw):
